@@ -261,6 +261,7 @@ class MultiWcsProcessor(object):
 
     def _tile_parallel(self, pio, reproject_function, cli_progress, parallel, **kwargs):
         import multiprocessing as mp
+        from .par_util import finish_work_queue, put_work_item
 
         # Start up the workers
 
@@ -281,13 +282,17 @@ class MultiWcsProcessor(object):
 
         with progress_bar(total=len(self._descs), show=cli_progress) as progress:
             for image, desc in zip(self._collection.images(), self._descs):
-                queue.put((image, desc, self._combined_wcs))
+                put_work_item(
+                    queue,
+                    (image, desc, self._combined_wcs),
+                    workers,
+                    "parallel tiling",
+                )
                 progress.update(1)
 
         # Wrap up
 
-        queue.close()
-        queue.join_thread()
+        finish_work_queue(queue, workers, "parallel tiling")
         done_event.set()
 
         for w in workers:
